@@ -563,6 +563,7 @@ class Sim:
             return
         p.state = "zombie"
         p.status = status
+        p.exit_time = self.now
         p.stopped = False
         for fd in sorted(p.fds):
             self._close_entry(p, fd)
